@@ -38,6 +38,24 @@ TEXT = {
   "ref": "DESIGN.md section 4, C18",
  },
 
+ "C10": {
+  "technique": "property-based testing (rapid) of issue/use histories over a harness-controlled token clock; write tokens mutated bit-by-bit, truncated, extended, from another IP or another server; oracle is an independent acceptance window model (<=10 min must, >15 min must not)",
+  "level": "Generated histories of token issue (genuine get/get_peers), clock advances on and around the 5-minute rotation grid (+-1 ns at the 10- and 15-minute bounds) and announce_peer/put uses from the same or other IPs and ports; replies and side effects (announce callback, AddPeer, store Put) are observed at the socket seam and through recording stores.",
+  "note": "Uses the VerifSetTokenClock hook (sets the token server's existing, unexported time source); the real time.Now plumbing is exercised only at 'now'. Between 10 and 15 minutes either outcome is accepted if reply and side effect agree.",
+  "ref": "DESIGN.md section 4, C10",
+ },
+ "C11": {
+  "technique": "property-based testing (rapid), model-based: announce/get_peers histories against a reference map infohash -> source IP -> endpoint, every get_peers reply judged for soundness, completeness, BEP 32 entry sizes and token presence",
+  "level": "Generated histories of accepted and rejected announces (port / implied_port / both) and get_peers with every want combination from IPv4, IPv6 and v4-mapped sources over several infohashes, against the bundled in-memory peer store behind the real wire handlers.",
+  "note": "Cross-family conversion of values is permitted, not required; a want list naming neither n4 nor n6 leaves the wanted family open. Asynchronous AddPeer is covered by the quiescence barrier.",
+  "ref": "DESIGN.md section 4, C11",
+ },
+ "C13": {
+  "technique": "property-based testing (rapid): model-based sequential put/get histories against an independent BEP 44 acceptance rule; concurrent puts over a yielding store whose every Get/Put/Del is released by a generated schedule, judged by a validity predicate over the acknowledged puts; sound-by-construction expiry probe",
+  "level": "Sequential histories (wire, Server.Put, store wrapper) with seq/CAS from dense and extreme ranges; all interleavings of 2..4 concurrent puts at the granularity of the underlying store's calls are sampled by generated schedules (the harness owns which parked store call proceeds); expiry with a real 25 ms Exp.",
+  "note": "Interleavings finer than store calls (inside the wrapper's critical section) are owned by the Go scheduler; the thorough tier adds a -race shard as perturbation.",
+  "ref": "DESIGN.md section 4, C13",
+ },
  "C15": {
   "technique": "property-based testing (rapid): round-trip and fixpoint oracles over generated Msg values, mutated encodings and length-biased byte strings; native fuzzing in the thorough tier",
   "level": "Generated-input search: every run draws tens of thousands of krpc.Msg values over the full field set, byte-mutated encodings, KRPC-shaped dictionaries with mistyped fields, and byte strings with lengths around multiples of each compact entry size, and checks round-trip, re-encode fixpoint, exact-length acceptance and absence of panics. It shows the property on everything generated, not for all inputs.",
